@@ -235,6 +235,18 @@ pub fn run_session(sc: &Scenario, root: &Path, stats: &mut Stats, nontrivial: fn
                 let c = InvCtx::new(sc, inv, &r);
                 let is_watch = inv.args.iter().any(|a| a == "--watch");
                 stats.absorb_run(inv, &r, is_watch && nontrivial(&c));
+                if is_watch {
+                    // reach probe: a workload edit applied while some build script was running
+                    let mut inside = 0u64;
+                    for e in r.events.iter().filter(|e| e.kind == "fs-apply") {
+                        if r.procs.iter().any(|p| p.kind == "build" && p.spawn_seq < e.seq && p.exit.as_ref().map(|x| x.0 > e.seq).unwrap_or(true) && p.kill_seq.map(|k| k > e.seq).unwrap_or(true)) {
+                            inside += 1;
+                        }
+                    }
+                    if inside > 0 {
+                        *stats.probes.entry("change-applied-during-a-build".into()).or_insert(0) += inside;
+                    }
+                }
                 stats.sim_ticks += r.footer.as_ref().map(|f| f.clock).unwrap_or(0).saturating_sub(inv.plan.clock_start);
                 if is_watch && stats.sample.is_none() {
                     let mut s = sample_of(sc, inv, &r);
@@ -609,6 +621,9 @@ impl Property for C06 {
             "edits never restore a file's mtime (content change with identical mtime is indistinguishable by design of the mtime-or-hash rule)",
         ]
     }
+    fn required_probes(&self) -> Vec<&'static str> {
+        vec!["change-applied-during-a-build", "try_send-slot-already-full"]
+    }
     fn generate(&self, rng: &mut Rng, _case: u64) -> Scenario {
         gen_watch(rng, &WatchOpts::default())
     }
@@ -695,6 +710,9 @@ impl Property for C16 {
     }
     fn assumptions(&self) -> Vec<&'static str> {
         vec!["a panic inside the notification callback kills that watcher for good, as it kills the real `notify-rs inotify loop` thread"]
+    }
+    fn required_probes(&self) -> Vec<&'static str> {
+        vec!["own-state-write-seen-by-watcher"]
     }
     fn generate(&self, rng: &mut Rng, _case: u64) -> Scenario {
         let mut files = vec![];
